@@ -56,6 +56,16 @@ let () =
         let data = (match c C_thread_data with CV (CZero, _) -> "0" | _ -> "dirty") in
         Printf.printf "OUT RB %s start_intr_req=%d start_intr_enabled=%d start_data=%s exit_cb_accepted=%d\n"
           id (b F_requested_interrupt) (b F_enabled_interrupt) data accepted
+      | ["IN"; "CUR"; id; path; creator; conv; req] ->
+        (* class of a task created through [path] (R = at once, S = staged) by a task of class [creator] (- = no task),
+           a staged description being converted in context [conv]; req = 0..3 explicit class, c = thread_stacksize::current *)
+        let cls = function "0" -> Small | "1" -> Medium | "2" -> Large | _ -> Huge in
+        let ctx = function "-" -> None | x -> Some (cls x) in
+        let num = function Small -> "0" | Medium -> "1" | Large -> "2" | Huge -> "3" | Nostack -> "4" in
+        let p = if path = "R" then RunNow else Staged in
+        let r = if req = "c" then Current else Explicit (cls req) in
+        Printf.printf "OUT CUR %s cls=%s enum=%s\n" id (num (created_class p (ctx creator) (ctx conv) r))
+          (match created_enum p (ctx creator) r with Some c -> num c | None -> "current")
       | _ -> ()
     done
   with End_of_file -> ()
